@@ -16,6 +16,8 @@
  *                                       (message i carries n_i descriptors which arrive with its first byte;
  *                                       chunk sizes as in h_parse.c); queue_messages is retried while FALSE
  *   matchrule <warm> <x hex>            bus_match_rule_parse (NULL, text)
+ *   fdappend <warm> <x path> <shape>    a method call to <path> gets descriptors appended (shape h, hh, sh, args, ah, (hs), v) and is
+ *                                       dropped again: block count and open-descriptor count must be back at the baseline
  *   config <warm> <x hex text>          bus_config_load (scratch file holding the text, TRUE, NULL): what the parser's getters return (type, user,
  *                                       addresses, mechanisms, service and include directories, every limit, flags, the
  *                                       policy's verdict on a few uids) is dumped and compared with the fault-free dump
@@ -1187,6 +1189,65 @@ static int iter_config (void *pathv, int warm, int k, int nf)
   return fired;
 }
 
+/* ------------------------------------------------------------------ appending descriptors */
+
+/* builds a method call to `path` and appends descriptors in the given shape; the message is dropped again in every
+ * case, so all descriptors libdbus duplicated for it must be closed when this returns.  Returns 1 if every call succeeded. */
+static int fdappend_once (const char *path, const char *shape, int src)
+{
+  DBusMessage *m = dbus_message_new_method_call (NULL, path, "com.example.I", "M");
+  DBusMessageIter it, sub;
+  int ok = 0;
+  const char *str = "x";
+  if (m == NULL) return 0;
+  dbus_message_iter_init_append (m, &it);
+  if (strcmp (shape, "h") == 0)
+    ok = dbus_message_iter_append_basic (&it, DBUS_TYPE_UNIX_FD, &src);
+  else if (strcmp (shape, "hh") == 0)
+    ok = dbus_message_iter_append_basic (&it, DBUS_TYPE_UNIX_FD, &src) && dbus_message_iter_append_basic (&it, DBUS_TYPE_UNIX_FD, &src);
+  else if (strcmp (shape, "sh") == 0)
+    ok = dbus_message_iter_append_basic (&it, DBUS_TYPE_STRING, &str) && dbus_message_iter_append_basic (&it, DBUS_TYPE_UNIX_FD, &src);
+  else if (strcmp (shape, "args") == 0)
+    ok = dbus_message_append_args (m, DBUS_TYPE_UNIX_FD, &src, DBUS_TYPE_STRING, &str, DBUS_TYPE_UNIX_FD, &src, DBUS_TYPE_INVALID);
+  else
+    {
+      int type = DBUS_TYPE_ARRAY; const char *sig = "h";
+      if (strcmp (shape, "(hs)") == 0) { type = DBUS_TYPE_STRUCT; sig = NULL; }
+      else if (strcmp (shape, "v") == 0) { type = DBUS_TYPE_VARIANT; }
+      if (dbus_message_iter_open_container (&it, type, sig, &sub))
+        {
+          ok = dbus_message_iter_append_basic (&sub, DBUS_TYPE_UNIX_FD, &src);
+          if (ok && type == DBUS_TYPE_ARRAY) ok = dbus_message_iter_append_basic (&sub, DBUS_TYPE_UNIX_FD, &src);
+          if (ok && type == DBUS_TYPE_STRUCT) ok = dbus_message_iter_append_basic (&sub, DBUS_TYPE_STRING, &str);
+          if (ok) ok = dbus_message_iter_close_container (&it, &sub);
+          else dbus_message_iter_abandon_container (&it, &sub);
+        }
+    }
+  dbus_message_unref (m);
+  return ok;
+}
+
+static int iter_fdappend (void *ctx, int warm, int k, int nf)
+{
+  Toks *t = ctx;
+  int bad = 0, fired, leak, ok, ok2 = -1, src, fd0 = count_open_fds (), fd1;
+  const char *path = tok_str (t->tv[2], &bad);
+  const char *shape = t->tn > 3 ? t->tv[3] : "h";
+  if (bad || path == NULL) { printf ("{\"bad\":1}"); return 0; }
+  begin_run (k, nf, 0);
+  warm_up (warm);
+  src = make_fd ();
+  arm (k, nf);
+  ok = fdappend_once (path, shape, src);
+  fired = disarm (k, nf);
+  if (!ok) ok2 = fdappend_once (path, shape, src);
+  close (src);
+  leak = end_run ();
+  fd1 = count_open_fds ();
+  printf ("{\"k\":%d,\"n\":%d,\"fired\":%d,\"leak\":%d,\"fd_delta\":%d,\"ok\":%d,\"retried\":%d,\"retry_ok\":%d}", k, nf, fired, leak, fd1 - fd0, ok, !ok, ok2);
+  return fired;
+}
+
 /* ------------------------------------------------------------------ driver */
 
 typedef int (*IterFn) (void *ctx, int warm, int step, int k, int nf);
@@ -1217,6 +1278,7 @@ static int fn_demarshal (void *ctx, int warm, int step, int k, int nf) { BytesCt
 static int fn_loader (void *ctx, int warm, int step, int k, int nf) { (void) step; return iter_loader (ctx, warm, k, nf); }
 static int fn_matchrule (void *ctx, int warm, int step, int k, int nf) { (void) step; return iter_matchrule (ctx, warm, k, nf); }
 static int fn_config (void *ctx, int warm, int step, int k, int nf) { (void) step; return iter_config (ctx, warm, k, nf); }
+static int fn_fdappend (void *ctx, int warm, int step, int k, int nf) { (void) step; return iter_fdappend (ctx, warm, k, nf); }
 
 static void run_case (char *line)
 {
@@ -1301,6 +1363,11 @@ static void run_case (char *line)
           free (copy);
         }
       else printf ("{\"bad\":1}");
+    }
+  else if (strcmp (op, "fdappend") == 0)
+    {
+      iter_fdappend (&t, warm, -1, 1);
+      enumerate (fn_fdappend, &t, warm, 0);
     }
   else if (strcmp (op, "config") == 0)
     {
